@@ -532,7 +532,19 @@ def checkCreateEvent (e : Event) (sender : UserID) : R Unit :=
           | some v => if knownRoomVersion v then .ok () else notAllowed
           | none => .ok ()
       | some _ => notAllowed
-    else if row.checkCreateEvent == "checkCreateEventV2" then domainCheck
+    else if row.checkCreateEvent == "checkCreateEventV2" then do
+      domainCheck
+      -- room version 11 dropped the creator field, not the room_version check
+      match e.content with
+      | none => notAllowed
+      | some .null => .ok ()
+      | some (.obj kvs) =>
+        let rv := decStringPtr (lookupField kvs b!"room_version")
+        if rv.err then notAllowed
+        else match rv.val with
+          | some v => if knownRoomVersion v then .ok () else notAllowed
+          | none => .ok ()
+      | some _ => notAllowed
     else if row.checkCreateEvent == "checkCreateEventV3" then
       match e.content with
       | none => notAllowed
@@ -591,9 +603,11 @@ def Ctx.commonChecks (a : Ctx) (member : MemberContent) (e : Event) : R Unit := 
   let senderLevel ← a.userPowerLevel e.sender
   let eventLevel := a.pl.eventLevel e.type e.stateKey.isSome
   if senderLevel < eventLevel then notAllowed
-  match e.stateKey with
-  | some (0x40 :: rest) => if (0x40 :: rest) != e.sender then notAllowed
-  | _ => pure ()
+  -- m.room.third_party_invite events are allowed if and only if the sender has the invite level (checked above)
+  if e.type != b!"m.room.third_party_invite" then
+    match e.stateKey with
+    | some (0x40 :: rest) => if (0x40 :: rest) != e.sender then notAllowed
+    | _ => pure ()
 
 /-- the (old, new) pairs `checkEventLevels` compares -/
 def eventLevelPairs (old new : PowerLevels) : List (Int × Int) :=
@@ -741,7 +755,7 @@ def MembershipAllower.allowedSelf (m : MembershipAllower) : R Unit := do
     if (m.joinRule == b!"restricted" || m.joinRule == b!"knock_restricted") && jr == b!"public" then return ()
     if old == b!"invite" then return ()
     if old == b!"join" then return ()
-    if old == b!"leave" && jr == b!"public" then return ()
+    if jr == b!"public" then return ()
     notAllowed
   else if new == b!"leave" then
     if old == b!"join" || old == b!"invite" || old == b!"knock" then return () else notAllowed
@@ -779,7 +793,8 @@ def Ctx.memberEventAllowed (a : Ctx) (e : Event) (sig3pid : Bool) : R Unit := do
   let tpKeys ← (match newMember.thirdPartyInvite with
     | none => pure 0
     | some s =>
-      match a.provider.thirdPartyInvite s.token with
+      if newMember.membership != b!"invite" then pure 0
+      else match a.provider.thirdPartyInvite s.token with
       | none => notAllowed
       | some tpe => match decodeThirdPartyInviteKeys tpe.content with
         | none => notAllowed
@@ -789,12 +804,15 @@ def Ctx.memberEventAllowed (a : Ctx) (e : Event) (sig3pid : Bool) : R Unit := do
       senderMember := senderMember, oldMember := oldMember, newMember := newMember, joinRule := a.joinRule }
   -- membershipAllowed
   if a.create.roomID != e.roomID then notAllowed
+  -- only pseudo-ID rooms map the sender through the event's mxid_mapping
   let sender ← (match newMember.mxidMappingUserID with
     | some uid =>
-      match parseUserID? uid with
-      | none => .error (.unmodelled "IPv6 literal in mxid_mapping.user_id")
-      | some none => failErr
-      | some (some u) => pure u
+      if e.ver == b!"org.matrix.msc4014" then
+        match parseUserID? uid with
+        | none => .error (.unmodelled "IPv6 literal in mxid_mapping.user_id")
+        | some none => failErr
+        | some (some u) => pure u
+      else resolveUser e.sender
     | none => resolveUser e.sender)
   a.create.domainAllowed sender.domain
   match a.createEvent with
